@@ -141,11 +141,21 @@ func runBytes(carrier, mode string, n, part int, seed uint64) (string, string) {
 		}
 		chans = map[string]string{"aaa": other(1), "echo": tmode, "mmm": other(2), "zzz": other(3)}
 	}
-	rig, err := NewRig(RigOpts{Carrier: carrier, Channels: chans, Insecure: true})
+	slow := strings.HasSuffix(carrier, "+slow")
+	carrier = strings.TrimSuffix(carrier, "+slow")
+	rig, err := NewRig(RigOpts{Carrier: carrier, Channels: chans, Insecure: true, Relay: slow})
 	if err != nil {
 		return "fail:rig", err.Error()
 	}
 	defer rig.Close()
+	if slow {
+		// a slow carrier (4 KiB/s each way, the speed of a DNS tunnel or a bad mobile link): one full multiplexer frame
+		// takes eight seconds to cross it
+		if rig.Relay == nil {
+			return "bad-op", "no relay on this carrier"
+		}
+		rig.Relay.SetRate(4096)
+	}
 	c, err := rig.Dial("echo")
 	if err != nil {
 		return "fail:dial", err.Error()
@@ -166,6 +176,9 @@ func runBytes(carrier, mode string, n, part int, seed uint64) (string, string) {
 		mode = "echo"
 	}
 	dl := e2eDeadline(carrier, n)
+	if slow {
+		dl += time.Duration(n/2048) * time.Second
+	}
 	switch mode {
 	case "echo":
 		werr := make(chan error, 1)
@@ -297,6 +310,8 @@ func (bytesComp) Gen(r *Rand, tier string, emit func(string)) {
 			}
 		}
 	}
+	// a slow carrier: a transfer that takes longer than any keep-alive or idle time-out a session might have
+	emit(fmt.Sprintf("tcp+slow up 40000 0 %d", r.Next()%1000))
 	// several channels behind one endpoint: the bytes reach the target of the channel that was asked for
 	emit(fmt.Sprintf("tcp+multi echo 5000 0 %d", r.Next()%1000))
 	emit(fmt.Sprintf("tcp+multi up 40000 1000 %d", r.Next()%1000))
@@ -338,6 +353,8 @@ func (bytesComp) Gen(r *Rand, tier string, emit func(string)) {
 			}
 			emit(fmt.Sprintf("%s echo 300 1 %d", c, r.Next()%1000))
 		}
+		emit(fmt.Sprintf("tcp+slow down 66000 0 %d", r.Next()%1000))
+		emit(fmt.Sprintf("ws+slow echo 40000 0 %d", r.Next()%1000))
 		emit("dnstxt specials 4000 0 2")
 		emit("dns specials 4000 0 1")
 		emit("dnstxt echo5c 700 0 2")
